@@ -210,3 +210,14 @@ Theorem C05_source_ts_read_position_is_the_models : forall rf rp fo po k sx m (h
     (st = SBDF_OK -> Imp.lookup strm_var (vars fin) = Some (VBytes sM)).
 Proof. exact ts_read_position_is_the_models. Qed.
 Print Assumptions C05_source_ts_read_position_is_the_models.
+
+(* no stream is read successfully by the code that the model refuses: whatever the allocation schedule, if the source's
+   sbdf_cs_read returns OK (on a stream without bit arrays), the L1 model's cs_read accepts that stream and ends exactly where the
+   source ended.  With C09_source_cs_read_status_is_the_models (same status when nothing fails) this makes the model's reader
+   and the code's column-slice reader the same function of the byte stream, up to allocation failures. *)
+Theorem C05_source_cs_read_success_is_the_models : forall rf rp fo po k sx m h, Forall byte sx -> cs_nobit sx ->
+  exists f0, forall f, (f0 <= f)%nat -> exists st fin,
+    callC prog_env f prog_sbdf_cs_read [VPtr rf fo; VPtr rp po] m k sx h = OReturn (VInt st) fin /\
+    (st = SBDF_OK -> exists c sM, Slice.cs_read false None sx = Ok (c, sM) /\ Imp.lookup strm_var (vars fin) = Some (VBytes sM)).
+Proof. exact cs_read_success_is_the_models. Qed.
+Print Assumptions C05_source_cs_read_success_is_the_models.
